@@ -271,4 +271,11 @@ def r4_activation(ctx):
         r.check(not bad, "init/no-break", "no early exit", "early exit from bb%s" % bad)
 
 
-RULES = [r1_protocol, r2_confinement, r3_flag_provenance, r4_activation]
+def shared(ctx):
+    from rules.engine import core
+    from rules.props import c03, c15
+    core.import_rules(ctx, [c03.r2_batch_commutativity], "X03")
+    core.import_rules(ctx, [c15.r5_only_selected], "X15")
+
+
+RULES = [r1_protocol, r2_confinement, r3_flag_provenance, r4_activation, shared]
